@@ -449,7 +449,13 @@ func (e *env) genHistory(hostile bool) {
 			if hostile && r.Intn(10) == 0 {
 				ante = math.MinInt64
 			}
-			h.insert(e, s, n, e.genKinds(r), ante)
+			var extra []sn
+			if r.Intn(12) == 0 { // further signers: the pool keys the transaction by the first one only
+				for k := 1 + r.Intn(2); k > 0; k-- {
+					extra = append(extra, sn{r.Intn(8), genNonce(r)})
+				}
+			}
+			h.insert(e, s, n, e.genKinds(r), ante, extra...)
 		case x < 72: // remove (mostly a pending one)
 			if len(h.pend) > 0 && r.Intn(5) != 0 {
 				keys := make([]sn, 0, len(h.pend))
@@ -527,8 +533,11 @@ func TestCorr(t *testing.T) {
 	e.replayCorpus(t)
 	for i := 0; i < run.N; i++ {
 		e.genHistory(run.Rng.Intn(100) < 15)
+		if i%3 == 0 {
+			e.genAPIHistory()
+		}
 	}
-	if err := run.Finish("Mempool.PriorityNonce Corr.C19", "C19.case", "C19.check"); err != nil {
+	if err := run.Finish("Mempool.PriorityNonce Mempool.PriorityNonceApi Corr.C19", "C19.case", "C19.check"); err != nil {
 		t.Fatal(err)
 	}
 }
